@@ -21,7 +21,7 @@ META = {
 }
 
 PROFILE = {"n_junctions": (1, 4), "p_junction_init": 0.7, "p_residual": 0.5, "p_group_junction": 0.4, "p_timed": 0.45}
-make_case = simprop.make_case_for(4, PROFILE)
+make_case = simprop.make_case_for(4, PROFILE, prefer=("junction", "tb_", "timed", "malaria", "cervical"))  # corpus draws mostly from models with junctions
 
 
 def count(tier, seed):
